@@ -248,7 +248,7 @@ def template_dims(part):
 
 
 def _template_point(idx):
-    name, x = decode_point(idx, template_dims(P))
+    name, x = decode_point(idx, template_dims)
     P["template"] = name
     return _untraced(_template_body)(x)
 
@@ -285,7 +285,7 @@ def port_dims(part):
 
 
 def _port_point(idx):
-    digits, slash = decode_point(idx, port_dims(P))
+    digits, slash = decode_point(idx, port_dims)
     return _untraced(_port_body)(digits, slash)
 
 
@@ -385,7 +385,7 @@ def _dot_shapes(maxn):
 
 
 def _dotseg_point(idx):
-    (n, sh), lead, trail = decode_point(idx, dotseg_dims(P))
+    (n, sh), lead, trail = decode_point(idx, dotseg_dims)
     return _untraced(_dotseg_body)(n, sh[0], sh[1], sh[2], sh[3], sh[4], lead, trail)
 
 
@@ -436,7 +436,7 @@ def char_dims(part):
 
 
 def _char_point(idx):
-    c, situation = decode_point(idx, char_dims(P))
+    c, situation = decode_point(idx, char_dims)
     return _untraced(_char_body)(c, situation)
 
 
@@ -448,7 +448,7 @@ def c14_char(idx: int) -> bool:
     return run(_char_point, idx)
 
 
-DIMS = {"c14_template": template_dims, "c14_port": port_dims, "c14_dotseg": lambda part: [_dot_shapes(part["maxn"]), [False, True], [False, True]],
+DIMS = {"c14_template": template_dims, "c14_port": port_dims, "c14_dotseg": dotseg_dims,
         "c14_char": char_dims}
 
 
@@ -589,7 +589,7 @@ def JOBS(tier):
              "4294967376", "18446744073709551696"]
     jobs.append({"func": "c14_port", "part": {"maxlen": 3 if quick else 5, "extra": extra}, "timeout": t, "samples": 1})
     jobs.append({"func": "c14_dotseg", "part": {"maxn": 4 if quick else 5}, "timeout": t, "samples": 1})
-    ranges = [(0, 0x7FF)] if quick else [(lo, lo + 0x1FFF) for lo in range(0, 0x10000, 0x2000)] + [(0x10000, 0x107FF), (0x10F800, 0x10FFFF)]
+    ranges = [(0, 0x3FF), (0x400, 0x7FF)] if quick else [(lo, lo + 0x1FFF) for lo in range(0, 0x10000, 0x2000)] + [(0x10000, 0x107FF), (0x10F800, 0x10FFFF)]
     for a in ALLOWED_SETS:
         for lo, hi in ranges:
             jobs.append({"func": "c14_char", "part": {"allowed": a, "lo": lo, "hi": hi}, "timeout": t, "samples": 1})
